@@ -20,5 +20,5 @@ for nm in ("lpush", "sadd", "hset", "lpop", "lrange", "hdel"):
 E3("c03_sdiff_missing_middle", "SDIFF a m b with a = {x,y} symbolic, m missing, b = {z} symbolic: a missing key in the middle is an empty set and later keys are still subtracted", ["StorageEngine::sdiff"], "3 symbolic one-byte members over 2 sets + 1 missing key; unwind 6", props=("C03",))
 # c03_lrem_minus1 / c03_lrem_plus1: CBMC out of memory even at 45 GB on the unchanged tree (drain(..).rev() + push_front) - LREM stays outside the claim
 E3("c03_sinter_two", "SINTER a b with a = {x,y}, b = {z} symbolic (z may equal x or y): exactly the common members", ["StorageEngine::sinter"], "3 symbolic one-byte members; unwind 6", props=("C03",), tier="thorough")
-E3("c03_sinter_missing", "SINTER a m b with m missing: empty", ["StorageEngine::sinter"], "as above", props=("C03",), tier="thorough")
+E3("c03_sinter_missing", "SINTER a m b with m missing and IN THE SAME SHARD as a: empty - and the call returns (a shard lock still held when the next key of the same shard is locked is a self-deadlock: the contended-lock path of RwLock is reported as a failed check)", ["StorageEngine::sinter"], "as above", props=("C03", "C06"))
 E3("c03_sunion_missing", "SUNION a m b with m missing: every member of every set once", ["StorageEngine::sunion"], "as above", props=("C03",), tier="thorough")
